@@ -1803,6 +1803,10 @@ func (p *Parser) paramExpParameter(pe *ParamExp) *ParamExp {
 					// Zsh allows omitting the parameter name, e.g. ${:-word}.
 					return pe
 				}
+				if p.r == runeEOF {
+					// The name may still follow, so the input is incomplete.
+					p.tok = _EOF
+				}
 				p.posErr(pos, "invalid parameter name")
 			}
 		}
